@@ -384,6 +384,13 @@ def main_run(prop: str, tier: str, seed: int, replay: str | None = None) -> int:
             inconclusive.append(f"mandatory bucket '{name}' never reached")
     if evaluations == 0:
         inconclusive.append("no cases evaluated")
+    mon_err = sum(v for k, v in counters.items() if "monitor_error:" in k or k.endswith("shadow_model_errors"))
+    decided = sum(counters.get(name, 0) for name in getattr(mod, "DECIDING", []))
+    if mon_err > 0.05 * max(decided, 1):
+        # monitors that could not evaluate what they were shown count, they never judge - but a run in which that
+        # happened for more than 5 % of the deciding observations has not decided much
+        inconclusive.append(f"{mon_err} monitor evaluations failed (deciding observations: {decided}): "
+                            + ", ".join(f"{k}={v}" for k, v in sorted(counters.items()) if "monitor_error:" in k)[:300])
     if counters.get("mon.cmp_tainted", 0) > max(counters.get("mon.cmp", 0), 1):
         # the shadow monitor stood down for most circuits (private state written from outside the API): what it did
         # not compare it cannot vouch for
